@@ -1,36 +1,63 @@
 """C20  Readers terminate on every input and report bad data as a parse error.
 
-Every read of the real readers (Newick, NEXUS, PHYLIP, FASTA; routes Tree.get / TreeList.get / DataSet.get /
-<Type>CharacterMatrix.get) runs under the JUMP step budget (LIMIT_A + LIMIT_B * len(text), calibrated at >= 100x the
-maximum any route needs on the valid corpus) inside the per-case wall-clock watchdog.  The outcome of one read is judged by
+Every read of the real readers (Newick, NEXUS, PHYLIP, FASTA) runs under the JUMP step budget (LIMIT_A + LIMIT_B * len(text),
+calibrated at >= 100x the maximum any route needs on the valid corpus), a CPU-time budget (loops inside C code) and an
+address-space limit (work / memory that follows the VALUE of a number in the text instead of the length of the text),
+inside the per-case wall-clock watchdog.  Routes: the factories Tree.get / TreeList.get / DataSet.get /
+<Type>CharacterMatrix.get, the iterator readers Tree.yield_from_files (schemas newick, nexus, nexus/newick: a second NEXUS
+driver, dataio/nexusyielder.py), and the instance readers TreeList.read / DataSet.read into an object that already holds
+data.  The outcome of one read is judged by
 
   terminates       a budget overflow is the verdict "does not terminate"; key = format + the function whose loop
                    spins (found by re-running the read under a jump counter: the shallowest frame that still jumps
-                   in the steady state; its callers are blocked in a call).  The wall-clock watchdog alone is
-                   inconclusive.
+                   in the steady state; its callers are blocked in a call) + 'work-follows-numeric-value' when the
+                   same text with its long numbers replaced by small ones of the same length terminates.  The wall-clock watchdog alone is inconclusive.
   exception        only an exception of the DataParseError family, or the documented ValueError of the get() factories
                    for a source without data ("No trees in data source", "No trees available at requested location ...",
-                   "No character data in data source") may escape.  Anything else is a violation keyed by
-                   (format, exception class, innermost library function of the dataio layer [, deeper helper]).
-                   RecursionError is keyed by the library function that occupies most of the stack.
-  well-formed      every returned tree passes the arborescence walker (raw fields + every iterator).
+                   "No character data in data source"), or - when the harness asked for a tree / collection offset - the
+                   documented, worded IndexError "Tree / Collection offset out of range" may escape.  Anything else is a
+                   violation keyed by (format, exception class, innermost library function of the dataio layer [, deeper
+                   helper]).  RecursionError is keyed by the library function that occupies most of the stack and, when
+                   the input is not deep (<= 300 nesting / comment openers), by '|shallow-input'.
+  identifies       a parse error must be printable (str(e) does not raise, is not empty), carry a non-empty message, and
+                   a line / column it names must exist in the text.
+  no data          a Newick source that plainly holds a closed '( ... ) ... ;' group (no comments / quotes in the text)
+                   is not "a source with no data": the no-data ValueError is a violation there.
+  well-formed      every returned tree passes the arborescence walker (raw fields + every iterator); every returned matrix
+                   of every format passes the matrix walker: rows keyed by Taxon objects that are members of the matrix's
+                   namespace, continuous cells are real numbers, discrete cells are (by identity) states of the matrix's
+                   own state alphabets - never None / str.
   dimensions       hooks on NexusReader._parse_matrix_statement / _parse_dimensions_statement / PhylipReader._read
-                   capture the dimensions *the reader itself parsed*; on return every delivered matrix must have
-                   every row as long as that NCHAR, and as many rows as NTAX when NTAX was declared for this matrix
-                   (PHYLIP header; NEXUS: an NTAX read inside the DIMENSIONS statement of the same CHARACTERS/DATA block).
+                   capture the dimensions *the reader itself parsed*; where the text plainly declares them (PHYLIP head
+                   line of two ASCII integers; a NEXUS text that holds NCHAR / NTAX exactly once as '<word> = <digits>')
+                   the reader's value must equal the text's.  On return every delivered matrix must have every row as
+                   long as NCHAR, and as many rows as NTAX when NTAX was declared for this matrix (PHYLIP header; NEXUS:
+                   an NTAX read inside the DIMENSIONS statement of the same CHARACTERS/DATA block).  The NEXUS row clause
+                   is keyed by mechanism: fewer rows (no lower bound in the library: recorded defect), more rows all of
+                   whose taxa existed before the MATRIX statement (recorded defect), taxa CREATED by the MATRIX statement
+                   beyond NTAX (the library's own guard NexusReader._get_taxon failed: separate clause), and any
+                   difference on a complete valid document (separate clause).
 
-Workloads: every prefix of every valid corpus document (hand-written documents of every block structure + seeded
-generated ones); single and double edits (char / token delete, insert, replace, duplicate, swap, dropped span or line,
-inserted keyword); random token strings per format; a quarter of the edited / random Newick and NEXUS inputs are read
-with one documented reader option switched (KWVAR); directed witnesses of every mechanism found (always run first);
-nesting-depth / comment-run stress as a separate directed class.
+Workloads: every prefix of every valid corpus document (hand-written documents of every block structure, PHYLIP / FASTA of
+every documented data type, CR / CRLF line-end variants, seeded generated ones), every 4th prefix additionally under one
+reader option in rotation; single and double edits (char / token delete, insert, replace, duplicate, swap, dropped span or
+line, inserted keyword, a number replaced by a boundary value, line ends changed, a row repeated under a new label;
+alphabets hold CR, NUL, BOM, non-ASCII
+letters and digits); random token strings per format (vocabularies hold magnitude tokens such as 1-99999999999); a third
+of the edited / random inputs are read with one or two documented reader options switched (OPTIONS: tree-reader options,
+NEXUS block options, tree / collection / matrix offsets, PHYLIP modes, every data type); valid documents under every
+option; directed witnesses of every mechanism found (always run first); nesting-depth / comment-run stress as a separate
+directed class.
 
 Soundness limits: inputs are small (<= 2 KB); outside the directed depth class generated inputs have <= 120 tokens, so
-a RecursionError there is not provoked by depth the generator made up; a DataParseError is accepted whatever its message;
+a RecursionError there is not provoked by depth the generator made up; the wording of a DataParseError is not judged;
 the ValueError by which <Type>CharacterMatrix.get refuses a document whose (possibly mutated) DATATYPE is not its own is
 a property of the route picked by the harness and is recorded, not judged; the NEXUS row-count clause is not applied when
 NTAX comes from a TAXA block only (a CHARACTERS matrix may cover a subset of the taxa); FASTA declares no dimensions;
-a valid corpus document that is rejected makes the run inconclusive (harness sanity), it is not a verdict."""
+a valid corpus document that is rejected under its own options makes the run inconclusive (harness sanity), it is not a
+verdict; a valid document rejected under a switched option is recorded only (an option may legitimately refuse it);
+immutable taxon namespaces and TreeArray.read are not driven (their errors are not reader errors)."""
+import io
 import random
 
 from .. import core
@@ -38,64 +65,109 @@ from ..mon import arbor
 from ..mon.budget import budget, StepBudgetExceeded, cpu_budget, CpuBudgetExceeded
 from ..mon.hooks import Hooks
 from . import _c20_util as U
+from . import _c20_oracle as O
 
 CPU_LIMIT_S = 20.0      # per read of an input of at most a few KB: > 1000x the CPU cost of any valid document
+AS_LIMIT = 2 << 30      # address space of a shard: > 30x what a shard needs; a read that asks for more is unbounded in the text size
 PROP = "C20"
 LEVEL = "exploration"
-TECHNIQUE = ("runtime monitoring: JUMP step budget + exception classifier + arborescence walker + hooks capturing the "
-             "reader's own parsed dimensions, on every prefix / edit of valid documents and random token strings")
-LEVEL_TEXT = "exploration: held on the prefixes, edits and token strings listed under 'rule'"
+TECHNIQUE = ("runtime monitoring: JUMP step budget + CPU-time budget + address-space limit + exception classifier + "
+             "parse-error inspection + arborescence walker + matrix walker + hooks capturing the reader's own parsed "
+             "dimensions, compared with the dimensions the text declares; on every prefix / edit of valid documents "
+             "and random token strings, over factory, iterator and instance read routes and reader options")
+LEVEL_TEXT = "exploration: held on the prefixes, edits, token strings, routes and options listed under 'rule'"
 LEVEL_NOTE = ("'terminates' is judged as bounded progress (backward-jump budget two orders of magnitude above what any valid "
-              "document needs); inputs are bounded in size; nesting depth is probed by a directed class only")
-RULE = ("reads = input text x route (Tree.get, TreeList.get, DataSet.get, typed CharacterMatrix.get). inputs: every prefix of "
+              "document needs, scaled with the length of the text - never with the value of a number in it); inputs are "
+              "bounded in size; nesting depth is probed by a directed class only")
+RULE = ("reads = input text x route (Tree.get, TreeList.get, DataSet.get, typed CharacterMatrix.get, Tree.yield_from_files "
+        "with schema newick / nexus / nexus-newick, TreeList.read and DataSet.read into non-empty objects) x reader options "
+        "(none, or one / two of OPTIONS incl. offsets, PHYLIP modes, data types). inputs: every prefix of "
         "valid documents (NEXUS: TAXA/CHARACTERS/DATA/TREES/SETS/ASSUMPTIONS/CODONS/unknown blocks, TITLE/LINK, TRANSLATE, "
-        "interleaved, continuous, multi-block; Newick multi-statement; PHYLIP strict/relaxed x sequential/interleaved; FASTA), "
-        "single/double edits of them, random token strings, directed witnesses, directed nesting-depth stress. "
-        "non-trivial = the text is not one of the complete valid corpus documents; distinct = distinct (format, text)")
+        "interleaved, continuous, multi-block; Newick multi-statement; PHYLIP strict/relaxed x sequential/interleaved x data "
+        "type; FASTA x data type; CR and CRLF variants), every 4th prefix also under one option, "
+        "single/double edits of them (incl. boundary numbers, line ends, added rows, control / non-ASCII characters), random token "
+        "strings (incl. magnitude tokens), valid documents under every option, directed witnesses, directed nesting-depth "
+        "stress. non-trivial = the text is not one of the complete valid corpus documents; distinct = distinct (format, text)")
 REACH = ["tokenizer:Tokenizer.next_token", "tokenizer:Tokenizer.require_next_token",
          "nexusprocessing:NexusTokenizer.next_token_ucase", "nexusprocessing:NexusTokenizer.skip_to_semicolon",
          "nexusreader:NexusReader._parse_nexus_stream", "nexusreader:NexusReader._parse_taxa_block",
          "nexusreader:NexusReader._parse_taxlabels_statement", "nexusreader:NexusReader._parse_dimensions_statement",
          "nexusreader:NexusReader._parse_format_statement", "nexusreader:NexusReader._parse_trees_block",
          "nexusreader:NexusReader._consume_to_end_of_block", "nexusreader:NexusReader._process_discrete_matrix_data",
+         "nexusreader:NexusReader._process_continuous_matrix_data", "nexusreader:NexusReader._read_continuous_character_values",
          "nexusreader:NexusReader._parse_link_statement", "nexusreader:NexusReader._parse_charset_statement",
+         "nexusreader:NexusReader._parse_positions", "nexusreader:NexusReader._get_taxon",
+         "nexusreader:NexusReader._read_block_without_processing",
+         "nexusyielder:NexusTreeDataYielder._yield_items_from_stream", "nexusyielder:NexusTreeDataYielder._yield_from_trees_block",
+         "newickyielder:NewickTreeDataYielder._yield_items_from_stream",
          "newickreader:NewickReader._parse_tree_statement", "newickreader:NewickReader._parse_tree_node_description",
-         "phylipreader:PhylipReader._read", "fastareader:FastaReader._read"]
+         "phylipreader:PhylipReader._read", "phylipreader:PhylipReader._parse_sequence_from_line",
+         "phylipreader:PhylipReader._parse_interleaved", "phylipreader:PhylipReader._parse_sequential",
+         "fastareader:FastaReader._read",
+         "treecollectionmodel:TreeList._parse_and_add_from_stream", "datasetmodel:DataSet._parse_and_add_from_stream"]
 MIN_EVENTS = {"read": (8000, 300000), "budget-armed": (8000, 300000), "outcome:parse-error": (2000, 80000),
               "outcome:returned": (2000, 60000), "outcome:documented-valueerror": (300, 10000),
               "tree-walked": (800, 20000), "dims-judged:nexus": (500, 10000), "dims-judged:nexus-rows": (200, 5000),
-              "dims-judged:phylip": (300, 3000), "hook:NexusReader._read:call": (4000, 150000),
+              "dims-judged:phylip": (1500, 10000), "hook:NexusReader._read:call": (4000, 150000),
               "hook:PhylipReader._read:call": (800, 20000), "hook:NexusReader._parse_matrix_statement:return": (500, 10000),
+              "hook:NexusReader._get_taxon_namespace:return": (10000, 150000),
               "prefix-read": (3000, 8000), "edit-read": (3000, 100000), "random-read": (1000, 30000),
-              "valid-document-returned": (20, 60), "depth-stress-read": (7, 7)}
+              "valid-document-returned": (25, 60), "depth-stress-read": (7, 7),
+              # deciding monitors added with the audit: walkers, parse-error inspection, text-declared dimensions
+              "matrix-walked": (8000, 70000), "matrix-cells-walked": (80000, 900000),
+              "error-identification-judged": (30000, 300000),
+              "dims-text-judged:nexus": (3500, 40000), "dims-text-judged:phylip": (2000, 10000),
+              # routes: iterator readers and instance readers
+              "read:nexus:yield": (1500, 35000), "read:nexus:yield-nn": (1500, 35000),
+              "read:newick:yield": (800, 7000), "read:newick:yield-nn": (800, 7000),
+              "read:nexus:treelist-read": (1500, 35000), "read:nexus:dataset-read": (1500, 35000),
+              "read:newick:treelist-read": (800, 7000), "read:newick:dataset-read": (800, 7000),
+              "read:phylip:dataset-read": (3000, 15000), "read:fasta:dataset-read": (1400, 8000),
+              # option / class dimensions
+              "option-read": (7000, 50000), "offset-option-read": (1200, 10000), "outcome:documented-offset-error": (200, 3000),
+              "prefix-option-read": (800, 3000), "prefix-read:newline-variant": (800, 6000), "valid-option-read": (500, 1600),
+              "directed-read": (80, 80), "directed-memory-read": (1, 1)}
 ASSUMPTIONS = ["allowed exceptions: subclasses of dendropy.utility.error.DataParseError (Tokenizer.*, NexusReader.*, NewickReader.*, "
-               "PhylipReader.* error classes) and the three 'no data' ValueErrors of the get() factories",
-               "step budget %d + %d * len(text) backward jumps inside library code",
-               "walker reads only _seed_node/_child_nodes/_parent_node/_edge/_head_node"]
+               "PhylipReader.* error classes), the three 'no data' ValueErrors of the get() factories, and - only when the "
+               "harness passed a tree / collection offset - the documented IndexError 'Tree / Collection offset out of range'",
+               "step budget %d + %d * len(text) backward jumps inside library code; %d s of CPU time; %d MB of address space",
+               "walkers read only _seed_node/_child_nodes/_parent_node/_edge/_head_node (trees) and _taxon_sequence_map/"
+               "_character_values/taxon_namespace._taxa/<alphabet>._fundamental_states,_ambiguous_states,_polymorphic_states (matrices)"]
 CASE_TIMEOUT = 120
 
-LIMIT_A = 20000
+LIMIT_A = 50000
 LIMIT_B = 400
-ASSUMPTIONS[1] = ASSUMPTIONS[1] % (LIMIT_A, LIMIT_B)
+ASSUMPTIONS[1] = ASSUMPTIONS[1] % (LIMIT_A, LIMIT_B, CPU_LIMIT_S, AS_LIMIT >> 20)
 
 NO_DATA_MESSAGES = ("No trees in data source", "No trees available at requested location in data source",
                     "No character data in data source")
-READER_FILES = ("nexusreader.py", "newickreader.py", "phylipreader.py", "fastareader.py")
+OFFSET_MESSAGES = ("Tree offset out of range", "Collection offset out of range", "Matrix offset out of range")
+READER_FILES = ("nexusreader.py", "newickreader.py", "phylipreader.py", "fastareader.py", "nexusyielder.py", "newickyielder.py")
 DATAIO_FILES = READER_FILES + ("tokenizer.py", "nexusprocessing.py")
 
-ROUTES = {"newick": ("dataset", "tree", "treelist"),
-          "nexus": ("dataset", "tree", "treelist", "matrix"),
-          "phylip": ("matrix", "dataset"),
-          "fasta": ("matrix", "dataset")}
+# the first route of a format is its primary route (always read); "yield-nn" = Tree.yield_from_files(schema="nexus/newick")
+ROUTES = {"newick": ("dataset", "tree", "treelist", "yield", "yield-nn", "treelist-read", "dataset-read"),
+          "nexus": ("dataset", "tree", "treelist", "matrix", "yield", "yield-nn", "treelist-read", "dataset-read"),
+          "phylip": ("matrix", "dataset", "dataset-read"),
+          "fasta": ("matrix", "dataset", "dataset-read")}
+TREE_ROUTES = ("tree", "treelist", "treelist-read")
+DTYPES = ("dna", "rna", "protein", "standard", "continuous", "restriction", "infinite")
 
 # ---------------------------------------------------------------------------------------------------
 # directed witnesses: (format, text, reader kwargs, dtype).  Smallest input of every mechanism found on the
 # unchanged tree; kept after a repair so that a regression is reported again.
 NX = "#NEXUS\n"
 TAXA2 = NX + "BEGIN TAXA; DIMENSIONS NTAX=2; TAXLABELS a b; END;\n"
+DATA12 = NX + "BEGIN DATA; DIMENSIONS NTAX=1 NCHAR=2; FORMAT DATATYPE=DNA; MATRIX a AC; END;\n"
 DIRECTED = [
-    # --- end of stream inside NEXUS statements
+    # --- end of stream inside NEXUS statements; sources without any token (every route, also the iterator readers)
     ("nexus", "", None, None),
+    ("nexus", "   \n", None, None),
+    ("nexus", "[comment only]", None, None),
+    ("newick", "", None, None),
+    ("newick", " \n", None, None),
+    ("newick", "[comment only]", None, None),
+    ("nexus", NX, None, None),
     ("nexus", NX + "BEGIN TAXA;", None, None),
     ("nexus", NX + "BEGIN TAXA; DIMENSIONS NTAX=2; TAXLABELS a", None, None),
     ("nexus", NX + "BEGIN TAXA; TAXLABELS a b; END;", None, None),
@@ -113,6 +185,9 @@ DIRECTED = [
     ("nexus", NX + "BEGIN DATA; DIMENSIONS NTAX=2 NCHAR=2; FORMAT DATATYPE=DNA; MATRIX a A; END;\n", None, "dna"),
     ("nexus", TAXA2 + "BEGIN CHARACTERS; DIMENSIONS NTAX=1 NCHAR=1; FORMAT DATATYPE=DNA; MATRIX a A b C; END;\n", None, "dna"),
     ("nexus", NX + "BEGIN DATA; DIMENSIONS NTAX=1 NCHAR=2; FORMAT DATATYPE=CONTINUOUS; MATRIX a 1.0; END;\n", None, "continuous"),
+    # a DATA block that creates its own taxa: one row more than NTAX (the reader's guard must refuse the third label)
+    ("nexus", NX + "BEGIN DATA; DIMENSIONS NTAX=2 NCHAR=2; FORMAT DATATYPE=DNA; MATRIX a AC b GT c TT; END;\n", None, "dna"),
+    ("nexus", NX + "BEGIN DATA; DIMENSIONS NTAX=2 NCHAR=2; FORMAT DATATYPE=DNA INTERLEAVE; MATRIX\n a A\n b G\n c T\n\n a C\n b T\n c T\n;\nEND;\n", None, "dna"),
     # --- MATRIX without FORMAT (default data type), duplicate SYMBOLS
     ("nexus", NX + "BEGIN DATA; DIMENSIONS NTAX=1 NCHAR=2; MATRIX a 01; END;\n", None, "standard"),
     ("nexus", NX + "BEGIN DATA; DIMENSIONS NTAX=1 NCHAR=2; MATRIX a (01)1; END;\n", None, "standard"),
@@ -120,10 +195,35 @@ DIRECTED = [
     ("nexus", NX + "BEGIN DATA; DIMENSIONS NTAX=1 NCHAR=2; FORMAT DATATYPE=STANDARD SYMBOLS=\"\"; MATRIX a 11; END;\n", None, "standard"),
     ("nexus", NX + "BEGIN DATA; DIMENSIONS NTAX=1 NCHAR=2; FORMAT DATATYPE=STANDARD SYMBOLS=\"1?\"; MATRIX a 11; END;\n", None, "standard"),
     # --- SETS block: CHARSET with a non-numeric position; LINK CHARACTERS to an untitled matrix
-    ("nexus", NX + "BEGIN DATA; DIMENSIONS NTAX=1 NCHAR=2; FORMAT DATATYPE=DNA; MATRIX a AC; END;\nBEGIN SETS; CHARSET x = foo; END;\n", None, "dna"),
-    ("nexus", NX + "BEGIN DATA; DIMENSIONS NTAX=1 NCHAR=2; FORMAT DATATYPE=DNA; MATRIX a AC; END;\nBEGIN SETS; CHARSET x = 1-2\\0; END;\n", None, "dna"),
-    ("nexus", NX + "BEGIN DATA; DIMENSIONS NTAX=1 NCHAR=2; FORMAT DATATYPE=DNA; MATRIX a AC; END;\n"
-              "BEGIN SETS; LINK CHARACTERS = d; CHARSET x = 1; END;\n", None, "dna"),
+    ("nexus", DATA12 + "BEGIN SETS; CHARSET x = foo; END;\n", None, "dna"),
+    ("nexus", DATA12 + "BEGIN SETS; CHARSET x = 1-2\\0; END;\n", None, "dna"),
+    ("nexus", DATA12 + "BEGIN SETS; LINK CHARACTERS = d; CHARSET x = 1; END;\n", None, "dna"),
+    # --- numbers whose VALUE is large: the work of a reader may follow the length of the text only
+    ("nexus", DATA12 + "BEGIN SETS; CHARSET x = 1-99999999999; END;\n", None, "dna"),
+    ("nexus", DATA12 + "BEGIN SETS; CHARSET x = 1-99999999999\\3; END;\n", None, "dna"),
+    ("nexus", DATA12 + "BEGIN SETS; CHARSET x = 1-.\\99999999999; END;\n", None, "dna"),
+    ("nexus", DATA12 + "BEGIN SETS; CHARSET x = 99999999999; END;\n", None, "dna"),
+    ("nexus", NX + "BEGIN DATA; DIMENSIONS NTAX=99999999999 NCHAR=99999999999; FORMAT DATATYPE=DNA; MATRIX a AC; END;\n", None, "dna"),
+    ("nexus", NX + "BEGIN TAXA; DIMENSIONS NTAX=99999999999; TAXLABELS a b; END;\n", None, None),
+    ("phylip", "99999999999 4\na ACGT\nb ACGT\n", {}, "dna"),
+    ("phylip", "2 99999999999\na ACGT\nb ACGT\n", {}, "dna"),
+    ("phylip", "2 99999999999\na ACGT\nb ACGT\n", {"interleaved": True}, "dna"),
+    ("newick", "(a:1e400,b:-0,c:1e-400)[&W 1/99999999999];", {"store_tree_weights": True}, None),
+    ("newick", "(a:99999999999,b:1.5);", {"edge_length_type": "@int"}, None),
+    # --- characters str.isdigit() accepts and int() refuses
+    ("nexus", NX + "BEGIN DATA; DIMENSIONS NTAX=1 NCHAR=²; FORMAT DATATYPE=DNA; MATRIX a AC; END;\n", None, "dna"),
+    ("nexus", NX + "BEGIN DATA; DIMENSIONS NTAX=² NCHAR=2; FORMAT DATATYPE=DNA; MATRIX a AC; END;\n", None, "dna"),
+    ("nexus", NX + "BEGIN DATA; DIMENSIONS NTAX=1 NCHAR=٢; FORMAT DATATYPE=DNA; MATRIX a AC; END;\n", None, "dna"),
+    ("nexus", DATA12 + "BEGIN SETS; CHARSET x = ²; END;\n", None, "dna"),
+    ("nexus", DATA12 + "BEGIN SETS; CHARSET x = 1-²; END;\n", None, "dna"),
+    ("nexus", DATA12 + "BEGIN SETS; CHARSET x = 1-2\\²; END;\n", None, "dna"),
+    ("nexus", DATA12 + "BEGIN SETS; CHARSET x = 1 ²; END;\n", None, "dna"),
+    ("phylip", "² 4\na ACGT\nb ACGT\n", {}, "dna"),
+    ("phylip", "٢ ٤\na ACGT\nb ACGT\n", {}, "dna"),
+    # --- store_ignored_blocks with an unknown block before / after the data
+    ("nexus", NX + "BEGIN PAUP;\n SET x=1;\nEND;\nBEGIN DATA;\n DIMENSIONS NTAX=2 NCHAR=2;\n FORMAT DATATYPE=DNA;\n MATRIX\n a AC\n b GT\n ;\nEND;\n"
+              "BEGIN TREES;\n TREE t = (a,b);\nEND;\n", {"store_ignored_blocks": True}, "dna"),
+    ("nexus", NX + "BEGIN PAUP;\n SET x=1;\n", {"store_ignored_blocks": True}, None),
     # --- PHYLIP rows against the header
     ("phylip", "2 4\na ACGT\nb AC\n", {}, "dna"),
     ("phylip", "2 2\na ACG\nb AC\n", {}, "dna"),
@@ -131,20 +231,93 @@ DIRECTED = [
     ("phylip", "2 2\na         AC\nb         G\nTT\n", {"strict": True, "interleaved": True}, "dna"),
     # --- PHYLIP repeated label
     ("phylip", "2 4\na ACGT\na ACGT\nb ACGT\n", {}, "dna"),
+    # --- PHYLIP / FASTA of the other documented data types; cells that are no value of the type
+    ("phylip", "2 2\na 0.5 1\nb 2 x\n", {}, "continuous"),
+    ("phylip", "2 2\na 0.5 1\nb 2 x\n", {"ignore_invalid_chars": True}, "continuous"),
+    ("phylip", "2 2\na 0.5 1\nb 2 nan\n", {}, "continuous"),
+    ("phylip", "2 2\na A!\nb AC\n", {}, "dna"),
+    ("phylip", "2 2\na A!C\nb AC\n", {"ignore_invalid_chars": True}, "dna"),
+    ("phylip", "2 2\na 01\nb 2?\n", {}, "standard"),
+    ("phylip", "2 2\na 01\nb 10\n", {}, "restriction"),
+    ("phylip", "2 2\na 01\nb 10\n", {}, "infinite"),
+    ("phylip", "2 2\na AR\nb N*\n", {}, "protein"),
+    ("fasta", ">a\nAC!T\n", {}, "dna"),
+    ("fasta", ">a\n0.5 1\n>b\n2 3\n", {}, "continuous"),
+    ("fasta", ">a\n0.5 x\n", {}, "continuous"),
+    ("fasta", "", {}, "continuous"),
+    ("fasta", ">a\n0101\n>b\n1?0-\n", {}, "standard"),
+    ("fasta", ">a\n0101\n", {}, "restriction"),
+    ("fasta", ">a\n0101\n", {}, "infinite"),
+    ("fasta", ">a\nACGU\n", {}, "rna"),
+    # --- tree / collection / matrix offsets beyond what the (possibly cut) source holds
+    ("newick", "(a,b);(c,d);", {"tree_offset": 2}, None),
+    ("newick", "(a,b);(c,d);", {"tree_offset": 1}, None),
+    ("newick", "(a,b);(c,d);", {"tree_offset": -3}, None),
+    ("newick", "(a,b);", {"collection_offset": 1}, None),
+    ("newick", "(a,b);", {"collection_offset": 0, "tree_offset": 5}, None),
+    ("nexus", TAXA2 + "BEGIN TREES; TREE t = (a,b); END;\n", {"collection_offset": 1}, None),
+    ("nexus", TAXA2 + "BEGIN TREES; TREE t = (a,b); END;\n", {"tree_offset": 1}, None),
+    ("nexus", DATA12, {"matrix_offset": 1}, "dna"),
+    ("nexus", DATA12, {"matrix_offset": -1}, "dna"),
     # --- jplace edge numbers (reader option)
     ("newick", "(a{x},b);", {"is_parse_jplace_tokens": True}, None),
     # --- tree weight comment with a zero denominator (reader option)
     ("newick", "[&W 1/0] (a,b);", {"store_tree_weights": True}, None),
     ("nexus", NX + "BEGIN TREES; TREE t = [&W 1/0] (a,b); END;\n", {"store_tree_weights": True}, None),
 ]
+# a stale, huge NCHAR (a later DIMENSIONS statement overrides the matrix's) and CHARSET ALL: memory follows the value.
+# Run only under the address-space limit.
+DIRECTED_NEEDS_AS_LIMIT = [
+    ("nexus", DATA12 + "BEGIN TAXA; DIMENSIONS NTAX=1 NCHAR=99999999999; TAXLABELS a; END;\nBEGIN SETS; CHARSET x = ALL; END;\n", None, "dna"),
+]
 
-# documented reader options, one of which is applied to a quarter of the edited / random inputs
-KWVAR = {"newick": [{"suppress_internal_node_taxa": False}, {"terminating_semicolon_required": False}, {"preserve_underscores": True},
-                    {"suppress_leaf_node_taxa": True}, {"rooting": "force-rooted"}, {"store_tree_weights": True},
-                    {"extract_comment_metadata": False}, {"suppress_edge_lengths": True}, {"is_parse_jplace_tokens": True}],
-         "nexus": [{"suppress_internal_node_taxa": False}, {"terminating_semicolon_required": False}, {"store_ignored_blocks": True},
-                   {"preserve_underscores": True}, {"store_tree_weights": True}, {"unconstrained_taxa_accumulation_mode": True},
-                   {"extract_comment_metadata": False}, {"rooting": "default-rooted"}]}
+# documented reader options: name -> (formats, kwargs).  Values starting with '@' are built per read (do_read).
+# A third of the edited / random inputs are read under one or two of them, every 4th prefix under one (in rotation),
+# every valid document under each.
+_TREE_FMTS = ("newick", "nexus")
+OPTIONS = [
+    ("internal-taxa", _TREE_FMTS, {"suppress_internal_node_taxa": False}),
+    ("no-leaf-taxa", _TREE_FMTS, {"suppress_leaf_node_taxa": True}),
+    ("no-leaf-taxa-legacy", _TREE_FMTS, {"suppress_external_node_taxa": True}),
+    ("no-semicolon", _TREE_FMTS, {"terminating_semicolon_required": False}),
+    ("underscores", _TREE_FMTS, {"preserve_underscores": True}),
+    ("force-rooted", _TREE_FMTS, {"rooting": "force-rooted"}),
+    ("force-unrooted", _TREE_FMTS, {"rooting": "force-unrooted"}),
+    ("default-rooted", _TREE_FMTS, {"rooting": "default-rooted"}),
+    ("rooting-none", _TREE_FMTS, {"rooting": None}),
+    ("tree-weights", _TREE_FMTS, {"store_tree_weights": True}),
+    ("raw-comments", _TREE_FMTS, {"extract_comment_metadata": False}),
+    ("no-lengths", _TREE_FMTS, {"suppress_edge_lengths": True}),
+    ("jplace", _TREE_FMTS, {"is_parse_jplace_tokens": True}),
+    ("int-lengths", _TREE_FMTS, {"edge_length_type": "@int"}),
+    ("case-sensitive", _TREE_FMTS, {"case_sensitive_taxon_labels": True}),
+    ("labels-to-edges", _TREE_FMTS, {"is_assign_internal_labels_to_edges": True}),
+    ("finish-node-fn", _TREE_FMTS, {"finish_node_fn": "@finish-node-fn"}),
+    ("given-namespace", _TREE_FMTS, {"taxon_namespace": "@prefilled-namespace"}),
+    ("ignored-blocks", ("nexus",), {"store_ignored_blocks": True}),
+    ("unconstrained-taxa", ("nexus",), {"unconstrained_taxa_accumulation_mode": True}),
+    ("create-missing-taxa-blocks", ("nexus",), {"automatically_create_missing_taxa_blocks": True}),
+    ("substitute-missing-taxa-blocks", ("nexus",), {"automatically_substitute_missing_taxa_blocks": True}),
+    ("exclude-trees", ("nexus", "newick"), {"exclude_trees": True}),
+    ("exclude-chars", ("nexus", "phylip", "fasta"), {"exclude_chars": True}),
+    ("tree-offset-1", _TREE_FMTS, {"tree_offset": 1}),
+    ("tree-offset-last", _TREE_FMTS, {"tree_offset": -1}),
+    ("tree-offset-2", _TREE_FMTS, {"tree_offset": 2}),
+    ("tree-offset-far", _TREE_FMTS, {"collection_offset": 0, "tree_offset": 7}),
+    ("collection-offset-1", _TREE_FMTS, {"collection_offset": 1}),
+    ("collection-offset-last", _TREE_FMTS, {"collection_offset": -1, "tree_offset": 0}),
+    ("matrix-offset-1", ("nexus",), {"matrix_offset": 1}),
+    ("matrix-offset-last", ("nexus",), {"matrix_offset": -1}),
+    ("phylip-strict", ("phylip",), {"strict": True}),
+    ("phylip-relaxed", ("phylip",), {"strict": False}),
+    ("phylip-interleaved", ("phylip",), {"interleaved": True}),
+    ("phylip-sequential", ("phylip",), {"interleaved": False}),
+    ("phylip-multispace", ("phylip",), {"strict": False, "multispace_delimiter": True}),
+    ("phylip-underscores", ("phylip",), {"underscores_to_spaces": True}),
+    ("phylip-ignore-invalid", ("phylip",), {"ignore_invalid_chars": True}),
+    ("given-namespace", ("phylip", "fasta"), {"taxon_namespace": "@prefilled-namespace"}),
+] + [("type-%s" % t, ("phylip", "fasta"), {"data_type": t}) for t in DTYPES]
+OPTIONS_OF = dict((f, [o for o in OPTIONS if f in o[1]]) for f in ("newick", "nexus", "phylip", "fasta"))
 
 DEPTH = [
     ("newick", "open-parens", "(" * 50),
@@ -161,16 +334,28 @@ DEPTH = [
 # corpus
 def corpus(tier, seed):
     docs = U.fixed_corpus()
+    nfixed = len(docs)
     per = {"nexus": 3, "newick": 2, "phylip": 2, "fasta": 1} if tier == "quick" else \
           {"nexus": 30, "newick": 8, "phylip": 8, "fasta": 4}
     for fmt in ("nexus", "newick", "phylip", "fasta"):
         for i in range(per[fmt]):
             docs.append(U.generated_doc(random.Random("corpus/%s/%s/%d" % (seed, fmt, i)), fmt, i))
+    # the same documents with the line ends of other platforms: all of them (thorough) / a third, rotating with the seed (quick)
+    for k in range(len(docs)):
+        for j, (name, nl) in enumerate(U.NEWLINE_VARIANTS):
+            if "\n" in docs[k]["text"].rstrip("\n") and (tier != "quick" or (k + seed) % 3 == j):
+                if k < nfixed or j == 0:
+                    docs.append(U.newline_variant(docs[k], name))
     return docs
 
 
+DIRECTED_CHUNK = 8
+
+
 def cases(tier, seed):
-    yield {"kind": "directed", "seed": seed}
+    for lo in range(0, len(DIRECTED), DIRECTED_CHUNK):
+        yield {"kind": "directed", "lo": lo, "seed": seed}
+    yield {"kind": "directed-memory", "seed": seed}
     yield {"kind": "depth", "seed": seed}
     docs = corpus(tier, seed)
     for k, d in enumerate(docs):
@@ -191,7 +376,8 @@ def cases(tier, seed):
 # ---------------------------------------------------------------------------------------------------
 # monitors
 class Monitor(object):
-    """hooks that capture the dimensions the readers themselves parsed."""
+    """hooks that capture the dimensions the readers themselves parsed, and how many taxa the namespace of a NEXUS
+    matrix held before its MATRIX statement."""
 
     def __init__(self, ctx):
         self.ctx = ctx
@@ -203,6 +389,8 @@ class Monitor(object):
         self.phylip_reader = None
         self.in_char_block = 0
         self.in_dims = 0
+        self.in_matrix = 0
+        self.matrix_ns = None    # (namespace, number of taxa) at the first namespace lookup of the running MATRIX statement
         self.block_ntax_declared = False
         self.matrices = {}      # id(matrix) -> record
 
@@ -214,7 +402,8 @@ class Monitor(object):
         h.install(NR, "_parse_characters_data_block", pre=self._block_pre, post=self._block_post, outermost_only=False)
         h.install(NR, "_parse_dimensions_statement", pre=self._dims_pre, post=self._dims_post, outermost_only=False)
         h.install(nexusprocessing.NexusTokenizer, "require_next_token_ucase", post=self._ucase_post, outermost_only=False)
-        h.install(NR, "_parse_matrix_statement", post=self._matrix_post, outermost_only=False)
+        h.install(NR, "_parse_matrix_statement", pre=self._matrix_pre, post=self._matrix_post, outermost_only=False)
+        h.install(NR, "_get_taxon_namespace", post=self._get_ns_post, outermost_only=False)
         h.install(phylipreader.PhylipReader, "_read", pre=self._phylip_read_pre, outermost_only=False)
 
     def uninstall(self):
@@ -244,29 +433,64 @@ class Monitor(object):
         if self.in_dims and self.in_char_block and result == "NTAX":
             self.block_ntax_declared = True
 
+    def _matrix_pre(self, obj, args, kw):
+        self.in_matrix += 1
+        self.matrix_ns = None
+
+    def _get_ns_post(self, snap, obj, args, kw, result, exc):
+        if self.in_matrix and self.matrix_ns is None and exc is None and result is not None:
+            try:
+                self.matrix_ns = (result, len(result._taxa))
+            except Exception:
+                self.matrix_ns = None
+
     def _matrix_post(self, snap, obj, args, kw, result, exc):
+        self.in_matrix -= 1
+        ns0, self.matrix_ns = self.matrix_ns, None
         if exc is not None or not obj._char_matrices:
             return
         m = obj._char_matrices[-1]
+        prior = None
+        if ns0 is not None and ns0[0] is getattr(m, "taxon_namespace", None):
+            prior = ns0[1]
         self.matrices[id(m)] = {"matrix": m, "ntax": obj._file_specified_ntax, "nchar": obj._file_specified_nchar,
                                 "ntax_in_block": bool(self.block_ntax_declared and self.in_char_block),
-                                "interleave": bool(obj._interleave), "dtype": obj._data_type}
+                                "interleave": bool(obj._interleave), "dtype": obj._data_type, "taxa_before": prior}
 
 
 _MON = [None]
 _LOCATOR = U.SpinLocator(core.REPO_SRC)
+_AS = {"old": None, "set": False}
 
 
 def shard_setup(ctx):
     m = Monitor(ctx)
     m.install()
     _MON[0] = m
+    # a read whose memory follows the VALUE of a number (set(range(1, 10**11))) must fail inside this process, soon
+    try:
+        import resource
+        old = resource.getrlimit(resource.RLIMIT_AS)
+        if old[0] == resource.RLIM_INFINITY or old[0] > AS_LIMIT:
+            resource.setrlimit(resource.RLIMIT_AS, (AS_LIMIT, old[1]))
+            _AS["old"], _AS["set"] = old, True
+        else:
+            _AS["set"] = True
+    except Exception:
+        ctx.note("address-space-limit-not-available")
 
 
 def shard_teardown(ctx):
     if _MON[0] is not None:
         _MON[0].uninstall()
         _MON[0] = None
+    if _AS["old"] is not None:
+        try:
+            import resource
+            resource.setrlimit(resource.RLIMIT_AS, _AS["old"])
+        except Exception:
+            pass
+        _AS["old"] = None
 
 
 # ---------------------------------------------------------------------------------------------------
@@ -274,22 +498,114 @@ def matrix_class(dtype):
     import dendropy
     return {"dna": dendropy.DnaCharacterMatrix, "rna": dendropy.RnaCharacterMatrix,
             "protein": dendropy.ProteinCharacterMatrix, "standard": dendropy.StandardCharacterMatrix,
-            "continuous": dendropy.ContinuousCharacterMatrix}.get(dtype or "dna", dendropy.DnaCharacterMatrix)
+            "continuous": dendropy.ContinuousCharacterMatrix, "restriction": dendropy.RestrictionSitesCharacterMatrix,
+            "infinite": dendropy.InfiniteSitesCharacterMatrix}.get(dtype or "dna", dendropy.DnaCharacterMatrix)
+
+
+def _finish_node(node):
+    return None
+
+
+def prior_dataset():
+    """a DataSet that already holds a namespace, a tree list with a tree and a (still empty) matrix - built through the
+    object API, not by a reader"""
+    import dendropy
+    ds = dendropy.DataSet()
+    tns = ds.new_taxon_namespace(label="prior")
+    for l in ("p", "q", "A"):
+        tns.new_taxon(l)
+    tl = ds.new_tree_list(taxon_namespace=tns, label="pt")
+    tl.append(prior_tree(tns))
+    ds.new_char_matrix(char_matrix_type="dna", taxon_namespace=tns, label="pc")
+    return ds
+
+
+def prior_tree(tns):
+    import dendropy
+    t = dendropy.Tree(taxon_namespace=tns)
+    t.seed_node.new_child(taxon=tns[0])
+    t.seed_node.new_child(taxon=tns[1])
+    return t
+
+
+def prior_treelist():
+    import dendropy
+    tns = dendropy.TaxonNamespace(["p", "q", "A"])
+    tl = dendropy.TreeList(taxon_namespace=tns)
+    tl.append(prior_tree(tns))
+    return tl
+
+
+def route_items(fmt, route, kw):
+    """the options that reach the route: an option that is an argument of another route (an offset into trees for a
+    matrix route ...) or that contradicts the object the route reads into is not part of this read."""
+    out = []
+    for k, v in (kw or {}).items():
+        if k in ("tree_offset", "collection_offset") and route not in TREE_ROUTES:
+            continue
+        if k == "matrix_offset" and route != "matrix":
+            continue
+        if k in ("exclude_trees", "exclude_chars") and fmt != "nexus" and route not in ("dataset", "dataset-read"):
+            continue
+        if k in ("taxon_namespace", "case_sensitive_taxon_labels") and route in ("treelist-read", "dataset-read"):
+            continue            # the existing object brings its (case-insensitive) namespace
+        if k == "data_type":
+            continue            # selects the matrix type (dtype)
+        if k == "is_assign_internal_labels_to_edges" and (kw or {}).get("suppress_internal_node_taxa") is False:
+            continue            # documented as conflicting (ValueError of the reader's constructor): not drawn together
+        out.append((k, v))
+    return out
+
+
+def kw_keys(fmt, route, kw):
+    return [k for k, v in route_items(fmt, route, kw)]
+
+
+def kw_for_route(fmt, route, kw):
+    """the reader keyword arguments of one read; '@' values are built."""
+    import dendropy
+    out = {}
+    items = route_items(fmt, route, kw)
+    case = any(k == "case_sensitive_taxon_labels" and v for k, v in items)
+    for k, v in items:
+        if v == "@int":
+            v = int
+        elif v == "@finish-node-fn":
+            v = _finish_node
+        elif v == "@prefilled-namespace":
+            v = dendropy.TaxonNamespace(["A", "b", "t1", "zz", "a", "sp one"], is_case_sensitive=case)
+        out[k] = v
+    return out
 
 
 def do_read(fmt, route, text, kw, dtype):
+    """returns (result, number of matrices the target held before)"""
     import dendropy
-    kw = dict(kw or {})
+    kw = kw_for_route(fmt, route, kw)
     if route == "tree":
-        return dendropy.Tree.get(data=text, schema=fmt, **kw)
+        return dendropy.Tree.get(data=text, schema=fmt, **kw), 0
     if route == "treelist":
-        return dendropy.TreeList.get(data=text, schema=fmt, **kw)
+        return dendropy.TreeList.get(data=text, schema=fmt, **kw), 0
+    if route in ("yield", "yield-nn"):
+        schema = "nexus/newick" if route == "yield-nn" else fmt
+        return list(dendropy.Tree.yield_from_files([io.StringIO(text)], schema=schema, **kw)), 0
+    if route == "treelist-read":
+        tl = prior_treelist()
+        tl.read(data=text, schema=fmt, **kw)
+        return tl, 0
+    if fmt in ("phylip", "fasta") and route in ("dataset", "dataset-read"):
+        kw["data_type"] = dtype or "dna"
     if route == "dataset":
-        if fmt in ("phylip", "fasta"):
-            kw["data_type"] = dtype or "dna"
-        return dendropy.DataSet.get(data=text, schema=fmt, **kw)
+        return dendropy.DataSet.get(data=text, schema=fmt, **kw), 0
+    if route == "dataset-read":
+        ds = prior_dataset()
+        if len(text) % 2:
+            ds.attach_taxon_namespace(ds.taxon_namespaces[0])
+        n = len(ds.char_matrices)
+        ds.read(data=text, schema=fmt, **kw)
+        return ds, n
     if route == "matrix":
-        return matrix_class(dtype).get(data=text, schema=fmt, **kw)
+        return matrix_class(dtype).get(data=text, schema=fmt, **kw), 0
     raise core.HarnessBug(route)
 
 
@@ -305,15 +621,33 @@ def frames(exc):
 
 
 def site_of(exc):
-    """'<innermost dataio function>[<deeper helper]' for the classifier key."""
+    """'<innermost dataio function>[<deeper helper]' for the classifier key; an exception raised outside the dataio layer
+    is anchored at the innermost data-model read function (_parse_and_create_from_stream ...) on the stack."""
     fr = frames(exc)
     if not fr:
         return "<outside-library>"
-    io = [q for f, q in fr if f in DATAIO_FILES]
+    io_ = [q for f, q in fr if f in DATAIO_FILES]
     inner = fr[-1][1]
-    if not io:
-        return inner
-    return io[-1] if io[-1] == inner else "%s<%s" % (io[-1], inner)
+    if not io_:
+        io_ = [q for f, q in fr if q.endswith("_from_stream")]
+        if not io_:
+            return inner
+    return io_[-1] if io_[-1] == inner else "%s<%s" % (io_[-1], inner)
+
+
+_QUOTED = __import__("re").compile(r"'[^']*'|\"[^\"]*\"|[0-9]+")
+_WORD = __import__("re").compile(r"[A-Za-z_]+")
+
+
+def message_stem(exc):
+    """the first words of the message without quoted parts and numbers: tells two causes in one function apart
+    (int() of a non-decimal digit / a zero step) without putting input values into the key."""
+    try:
+        msg = str(exc)
+    except Exception:
+        return "unprintable"
+    words = _WORD.findall(_QUOTED.sub(" ", msg))[:5]
+    return "-".join(w.lower() for w in words) or "no-message"
 
 
 def raised_at(exc):
@@ -324,6 +658,11 @@ def raised_at(exc):
             at = "%s:%d" % (tb.tb_frame.f_code.co_filename.rsplit("/", 1)[-1], tb.tb_lineno)
         tb = tb.tb_next
     return at
+
+
+def innermost_name(exc):
+    fr = core.innermost_repo_frame(exc)
+    return fr[0] if fr is not None else ""
 
 
 def recursion_site(exc):
@@ -346,18 +685,18 @@ def spin_site(exc):
 def trees_of(route, result):
     if route == "tree":
         return [result]
-    if route == "treelist":
+    if route in ("treelist", "treelist-read", "yield", "yield-nn"):
         return list(result)
-    if route == "dataset":
+    if route in ("dataset", "dataset-read"):
         return [t for tl in result.tree_lists for t in tl]
     return []
 
 
-def matrices_of(route, result):
+def matrices_of(route, result, nprior):
     if route == "matrix":
         return [result]
-    if route == "dataset":
-        return list(result.char_matrices)
+    if route in ("dataset", "dataset-read"):
+        return list(result.char_matrices)[nprior:]
     return []
 
 
@@ -368,6 +707,25 @@ def shape_of(m):
 
 def brief(text, n=700):
     return text if len(text) <= n else text[:n] + "...(%d chars)" % len(text)
+
+
+def value_probe(fmt, route, text, kw, dtype, limit):
+    """after a budget verdict: does the same text with its long numbers replaced by small ones of the same length
+    terminate?  (names the mechanism only, the verdict is the budget's)"""
+    small = O.shrink_numbers(text)
+    if small == text:
+        return ""
+    try:
+        with cpu_budget(CPU_LIMIT_S):
+            with budget(limit):
+                do_read(fmt, route, small, kw, dtype)
+    except core.CaseTimeout:
+        raise
+    except (StepBudgetExceeded, CpuBudgetExceeded):
+        return ""
+    except BaseException:
+        pass
+    return "|work-follows-numeric-value"
 
 
 def read_and_judge(ctx, fmt, route, text, kw, dtype, klass="generated", expect_valid=False):
@@ -382,6 +740,7 @@ def read_and_judge(ctx, fmt, route, text, kw, dtype, klass="generated", expect_v
     ctx.ev("read:%s:%s" % (fmt, route))
     ctx.ev("class:%s" % klass)
     result = None
+    nprior = 0
     outcome = None
     try:
         # second line for loops the JUMP budget cannot see (inside C code called by the library, e.g. a regular
@@ -389,13 +748,14 @@ def read_and_judge(ctx, fmt, route, text, kw, dtype, klass="generated", expect_v
         with cpu_budget(CPU_LIMIT_S):
             with budget(limit) as b:
                 ctx.ev("budget-armed")
-                result = do_read(fmt, route, text, kw, dtype)
+                result, nprior = do_read(fmt, route, text, kw, dtype)
         outcome = "returned"
     except core.CaseTimeout:
         raise
     except CpuBudgetExceeded as e:
         ctx.ev("outcome:cpu-budget-exceeded")
-        ctx.violation("%s|does-not-terminate|cpu-time|%s" % (fmt, e.where.split(":")[-1]),
+        mon.reset()
+        ctx.violation("%s|does-not-terminate|cpu-time|%s%s" % (fmt, e.where.split(":")[-1], value_probe(fmt, route, text, kw, dtype, limit)),
                       "read of %d chars consumed more than %.0f s of CPU time (valid inputs of this size need milliseconds); "
                       "interrupted in %s" % (len(text), CPU_LIMIT_S, e.where), det)
         return "hang"
@@ -406,35 +766,54 @@ def read_and_judge(ctx, fmt, route, text, kw, dtype, klass="generated", expect_v
         if site is None:
             ctx.note("spin-locator-fell-back-to-innermost-reader-frame")
             site = spin_site(e)
+        mon.reset()
+        probe = value_probe(fmt, route, text, kw, dtype, limit)
         ctx.ev("outcome:budget-exceeded")
-        ctx.violation("%s|does-not-terminate|%s" % (fmt, site),
-                      "read exceeded the step budget (%d backward jumps for %d chars); spinning in %s (tripped at %s)" % (
-                          limit, len(text), site, e.where), det)
+        ctx.violation("%s|does-not-terminate|%s%s" % (fmt, site, probe),
+                      "read exceeded the step budget (%d backward jumps for %d chars); spinning in %s (tripped at %s)%s" % (
+                          limit, len(text), site, e.where,
+                          "; the same text with its numbers of six or more digits replaced by 0..07 (same length) terminates" if probe else ""), det)
         return "hang"
     except RecursionError as e:
         site = recursion_site(e)
         ctx.ev("outcome:internal-error")
-        ctx.violation("%s|unexpected-exception|RecursionError|%s" % (fmt, site),
-                      "%s read raised RecursionError (stack dominated by %s)" % (fmt, site),
+        depth = O.nesting_class(text)
+        # the key of a deep input is the one the recorded depth findings have; a shallow input gets its own
+        ctx.violation("%s|unexpected-exception|RecursionError|%s%s" % (fmt, site, "" if depth == "deep-input" else "|shallow-input"),
+                      "%s read raised RecursionError (stack dominated by %s; %s: %d nesting / comment openers)" % (
+                          fmt, site, depth, text.count("(") + text.count("[")),
                       dict(det, text=brief(text, 120)))
         return "internal-error"
     except Exception as e:
         from dendropy.utility import error
+        inner = innermost_name(e)
+        offsets = [k for k in ("tree_offset", "collection_offset", "matrix_offset") if k in kw_keys(fmt, route, kw)]
         if isinstance(e, error.DataParseError):
             ctx.ev("outcome:parse-error")
             ctx.ev("parse-error:%s" % type(e).__name__)
             outcome = "parse-error"
-        elif type(e) is ValueError and str(e) in NO_DATA_MESSAGES and core.innermost_repo_frame(e) is not None \
-                and core.innermost_repo_frame(e)[0].endswith("_parse_and_create_from_stream"):
+            ctx.ev("error-identification-judged")
+            for clause, what in O.error_identification_problems(e, text):
+                ctx.violation("%s|parse-error-does-not-identify|%s|%s" % (fmt, clause, type(e).__name__),
+                              "%s raised at %s: %s" % (type(e).__name__, raised_at(e), what), det)
+        elif type(e) is ValueError and str(e) in NO_DATA_MESSAGES and inner.endswith("_parse_and_create_from_stream"):
             ctx.ev("outcome:documented-valueerror")
             outcome = "no-data"
+            if fmt == "newick" and route in ("tree", "treelist") and not kw_keys(fmt, route, kw) and O.newick_plainly_holds_a_tree(text):
+                ctx.violation("newick|no-data-error-on-source-with-a-tree|%s" % route,
+                              "%r raised although the text holds a closed '( ... ) ... ;' group and no comment / quote" % str(e), det)
         elif route == "matrix" and type(e) is ValueError and str(e).startswith("Data source (at offset") \
-                and core.innermost_repo_frame(e)[0].endswith("_parse_and_create_from_stream"):
+                and inner.endswith("_parse_and_create_from_stream"):
             ctx.note("typed-matrix-route-refused-other-datatype")
             outcome = "route-mismatch"
+        elif offsets and type(e) is IndexError and str(e).startswith(OFFSET_MESSAGES) \
+                and inner.endswith("_parse_and_create_from_stream"):
+            # the documented, worded error of the offset arguments (TreeList.get / read: "... then IndexError is raised")
+            ctx.ev("outcome:documented-offset-error")
+            outcome = "offset-out-of-range"
         else:
             ctx.ev("outcome:internal-error")
-            ctx.violation("%s|unexpected-exception|%s|%s" % (fmt, type(e).__name__, site_of(e)),
+            ctx.violation("%s|unexpected-exception|%s|%s|%s" % (fmt, type(e).__name__, site_of(e), message_stem(e)),
                           "%s read raised %s" % (fmt, core.exc_brief(e)), dict(det, raised_at=raised_at(e)))
             return "internal-error"
     if expect_valid:
@@ -454,70 +833,152 @@ def read_and_judge(ctx, fmt, route, text, kw, dtype, klass="generated", expect_v
         ctx.ev("tree-walked")
         if probs:
             ctx.violation("%s|malformed-tree|%s" % (fmt, probs[0]), "; ".join(probs), det)
-    # ---- returned: matrices against the dimensions the reader parsed
-    delivered = matrices_of(route, result)
+    # ---- returned: matrices well formed
+    delivered = matrices_of(route, result, nprior)
+    for m in delivered:
+        probs, ncells = O.walk_matrix(m)
+        ctx.ev("matrix-walked")
+        ctx.ev("matrix-cells-walked", ncells)
+        for clause, what in probs:
+            ctx.violation("%s|malformed-matrix|%s" % (fmt, clause), what, dict(det, matrix_type=type(m).__name__))
+    # ---- returned: matrices against the dimensions the reader parsed / the text declares
     if fmt == "nexus":
+        t_nchar = O.nexus_single_declaration(text, "NCHAR")
+        t_ntax = O.nexus_single_declaration(text, "NTAX")
         for m in delivered:
             rec = mon.matrices.get(id(m))
             if rec is None:
-                ctx.note("nexus-matrix-without-matrix-statement-record")
+                # every delivered NEXUS matrix is made by a MATRIX statement that returned: the hook was by-passed
+                ctx.mark_inconclusive("delivered NEXUS matrix without a record of its MATRIX statement (%s)" % route)
                 continue
             nrows, lens = shape_of(m)
             ctx.ev("dims-judged:nexus")
             mode = "interleaved" if rec["interleave"] else "sequential"
-            d2 = dict(det, declared={"ntax": rec["ntax"], "nchar": rec["nchar"], "ntax_in_block": rec["ntax_in_block"]},
+            nchar, ntax = rec["nchar"], rec["ntax"]
+            d2 = dict(det, declared={"ntax": ntax, "nchar": nchar, "ntax_in_block": rec["ntax_in_block"],
+                                     "text_nchar": t_nchar, "text_ntax": t_ntax, "taxa_before_matrix": rec["taxa_before"]},
                       found={"rows": nrows, "row_lengths": lens})
-            bad = [x for x in lens if x != rec["nchar"]]
+            if t_nchar is not None:
+                ctx.ev("dims-text-judged:nexus")
+                if nchar != t_nchar:
+                    ctx.violation("nexus|reader-dimensions-differ-from-text|nchar",
+                                  "reader parsed NCHAR=%s, the only NCHAR of the text says %d" % (nchar, t_nchar), d2)
+                    nchar = t_nchar
+            if t_ntax is not None and rec["ntax_in_block"]:
+                ctx.ev("dims-text-judged:nexus")
+                if ntax != t_ntax:
+                    ctx.violation("nexus|reader-dimensions-differ-from-text|ntax",
+                                  "reader parsed NTAX=%s, the only NTAX of the text says %d" % (ntax, t_ntax), d2)
+                    ntax = t_ntax
+            bad = [x for x in lens if x != nchar]
             if bad:
-                kind = "short" if min(bad) < rec["nchar"] else "long"
+                kind = "short" if min(bad) < nchar else "long"
                 ctx.violation("nexus|matrix-columns-contradict-nchar|%s|%s" % (mode, kind),
-                              "returned matrix has rows of length %s, reader parsed NCHAR=%s" % (lens, rec["nchar"]), d2)
+                              "returned matrix has rows of length %s, declared NCHAR=%s" % (lens, nchar), d2)
             if rec["ntax_in_block"]:
                 ctx.ev("dims-judged:nexus-rows")
-                if nrows != rec["ntax"]:
-                    ctx.violation("nexus|matrix-rows-contradict-ntax|%s" % ("fewer" if nrows < rec["ntax"] else "more"),
-                                  "returned matrix has %d rows, the block's DIMENSIONS declared NTAX=%s" % (nrows, rec["ntax"]), d2)
+                if nrows != ntax:
+                    side = "fewer" if nrows < ntax else "more"
+                    what = "returned matrix has %d rows, the block's DIMENSIONS declared NTAX=%s" % (nrows, ntax)
+                    before = rec["taxa_before"]
+                    after = len(m.taxon_namespace._taxa)
+                    if klass in ("valid", "valid-option"):
+                        ctx.violation("nexus|valid-document-matrix-rows-differ-from-ntax|%s" % side, what + " (complete valid document)", d2)
+                    elif side == "fewer":
+                        # mechanism of the recorded defect: the library has no lower bound on the number of rows
+                        ctx.violation("nexus|matrix-rows-contradict-ntax|fewer|%s" % mode, what, d2)
+                    elif before is None:
+                        ctx.mark_inconclusive("namespace size before the MATRIX statement was not observed")
+                    elif after > max(before, ntax):
+                        # the library's own upper bound (NexusReader._get_taxon refuses to create taxon number NTAX+1) failed
+                        ctx.violation("nexus|matrix-created-taxa-beyond-ntax|%s" % mode,
+                                      what + "; the MATRIX statement itself enlarged the namespace from %d to %d taxa" % (before, after), d2)
+                    else:
+                        # mechanism of the recorded defect: rows of taxa that existed before the MATRIX statement are not counted
+                        ctx.violation("nexus|matrix-rows-contradict-ntax|more|rows-of-predefined-taxa", what, d2)
             else:
                 ctx.note("nexus-rows-not-judged-ntax-from-taxa-block")
     elif fmt == "phylip":
         rd = mon.phylip_reader
+        t_dims = O.phylip_text_dims(text)
         for m in delivered:
             if rd is None or rd.char_matrix is not m:
-                ctx.note("phylip-matrix-without-reader-record")
+                ctx.mark_inconclusive("delivered PHYLIP matrix is not the one of the hooked reader (%s)" % route)
                 continue
             nrows, lens = shape_of(m)
             ctx.ev("dims-judged:phylip")
             mode = "%s-%s" % ("strict" if rd.strict else "relaxed", "interleaved" if rd.interleaved else "sequential")
-            d2 = dict(det, declared={"ntax": rd.ntax, "nchar": rd.nchar}, found={"rows": nrows, "row_lengths": lens})
-            bad = [x for x in lens if x != rd.nchar]
+            ntax, nchar = rd.ntax, rd.nchar
+            d2 = dict(det, declared={"ntax": ntax, "nchar": nchar, "text": t_dims}, found={"rows": nrows, "row_lengths": lens})
+            if t_dims is not None:
+                ctx.ev("dims-text-judged:phylip")
+                if (ntax, nchar) != t_dims:
+                    ctx.violation("phylip|reader-dimensions-differ-from-text",
+                                  "reader parsed %s x %s, the head line of the text says %d x %d" % (ntax, nchar, t_dims[0], t_dims[1]), d2)
+                    ntax, nchar = t_dims
+            else:
+                ctx.note("phylip-head-line-not-plain-dimensions-from-reader-only")
+            bad = [x for x in lens if x != nchar]
             if bad:
-                kind = "short" if min(bad) < rd.nchar else "long"
+                kind = "short" if min(bad) < nchar else "long"
                 ctx.violation("phylip|matrix-columns-contradict-nchar|%s|%s" % (
                     "interleaved" if rd.interleaved else "sequential", kind),
-                    "returned matrix (%s) has rows of length %s, header declared %s" % (mode, lens, rd.nchar), d2)
-            if nrows != rd.ntax:
-                ctx.violation("phylip|matrix-rows-contradict-ntax|%s" % ("fewer" if nrows < rd.ntax else "more"),
-                              "returned matrix has %d rows, header declared %s" % (nrows, rd.ntax), d2)
+                    "returned matrix (%s) has rows of length %s, header declared %s" % (mode, lens, nchar), d2)
+            if nrows != ntax:
+                ctx.violation("phylip|matrix-rows-contradict-ntax|%s" % ("fewer" if nrows < ntax else "more"),
+                              "returned matrix has %d rows, header declared %s" % (nrows, ntax), d2)
     return outcome
+
+
+def primary_route(fmt):
+    return ROUTES[fmt][0]
 
 
 def read_all_routes(ctx, d, text, routes=None, klass="generated", expect_valid=False):
     fmt = d["fmt"]
     outs = []
     for route in routes or ROUTES[fmt]:
-        primary = route == ("dataset" if fmt in ("nexus", "newick") else "matrix")
+        primary = route == primary_route(fmt)
         outs.append(read_and_judge(ctx, fmt, route, text, d["kw"], d["dtype"], klass, expect_valid and primary))
     return outs
 
 
 def pick_routes(fmt, i, tier):
-    """DataSet.get (reads trees and characters) always; the other routes in rotation (quick) or all (thorough)."""
+    """the primary route (DataSet.get for tree formats: reads trees and characters; the typed matrix for PHYLIP / FASTA)
+    always; of the other routes one (quick; thorough: three for NEXUS, two for Newick) in rotation."""
     rs = ROUTES[fmt]
-    if tier != "quick":
-        return rs
-    first = "dataset" if fmt in ("nexus", "newick") else "matrix"
-    rest = [r for r in rs if r != first]
-    return (first, rest[i % len(rest)])
+    rest = list(rs[1:])
+    n = len(rest)
+    k = 1 if tier == "quick" else {"nexus": 3, "newick": 2}.get(fmt, 1)
+    picked = [rs[0]]
+    for j in range(min(k, n)):
+        r = rest[(i * k + j) % n]
+        if r not in picked:
+            picked.append(r)
+    return tuple(picked)
+
+
+def with_options(d, opts):
+    """the document descriptor under reader options (later options win); 'data_type' selects the matrix type."""
+    kw = dict(d["kw"] or {})
+    dtype = d["dtype"]
+    for name, fmts, okw in opts:
+        kw.update(okw)
+        if "data_type" in okw:
+            dtype = okw["data_type"]
+    return dict(d, kw=kw, dtype=dtype)
+
+
+def draw_options(fmt, rng):
+    pool = OPTIONS_OF[fmt]
+    k = 1 if rng.random() < 0.7 else 2
+    return [rng.choice(pool) for _ in range(k)]
+
+
+def route_for_option(fmt, opt, i):
+    """a route that the option reaches, in rotation"""
+    rs = [r for r in ROUTES[fmt] if len(kw_keys(fmt, r, opt[2])) == len(opt[2])]
+    return rs[i % len(rs)] if rs else primary_route(fmt)
 
 
 # ---------------------------------------------------------------------------------------------------
@@ -525,10 +986,20 @@ def run_case(case, ctx):
     rng = random.Random("%s/%s" % (case["seed"], sorted((k, str(v)) for k, v in case.items())))
     kind = case["kind"]
     if kind == "directed":
-        for fmt, text, kw, dtype in DIRECTED:
+        for fmt, text, kw, dtype in DIRECTED[case["lo"]:case["lo"] + DIRECTED_CHUNK]:
             d = {"fmt": fmt, "kw": kw or {}, "dtype": dtype}
             ctx.nontrivial((fmt, text))
             read_all_routes(ctx, d, text, klass="directed")
+            ctx.ev("directed-read")
+        return
+    if kind == "directed-memory":
+        if not _AS["set"]:
+            ctx.mark_inconclusive("address-space limit not available: memory-follows-value witnesses not run")
+            return
+        for fmt, text, kw, dtype in DIRECTED_NEEDS_AS_LIMIT:
+            ctx.nontrivial((fmt, text))
+            read_and_judge(ctx, fmt, primary_route(fmt), text, kw or {}, dtype, klass="directed")
+            ctx.ev("directed-memory-read")
         return
     if kind == "depth":
         for fmt, name, text in DEPTH:
@@ -540,16 +1011,33 @@ def run_case(case, ctx):
     if kind == "valid":
         d = docs[case["doc"]]
         read_all_routes(ctx, d, d["text"], klass="valid", expect_valid=True)
+        # ... and under every option on one route it reaches (an option may legitimately refuse the document: recorded only)
+        for j, opt in enumerate(OPTIONS_OF[d["fmt"]]):
+            d2 = with_options(d, [opt])
+            out = read_and_judge(ctx, d["fmt"], route_for_option(d["fmt"], opt, j + case["doc"]), d["text"], d2["kw"], d2["dtype"],
+                                 klass="valid-option")
+            ctx.ev("valid-option-read")
+            if out != "returned":
+                ctx.note("valid-document-under-option-%s:%s" % (opt[0], out))
         if case["doc"] % 5 == 0:
             ctx.sample({"kind": "valid", "doc": d["id"], "text": brief(d["text"], 300)})
         return
     if kind == "prefix":
         d = docs[case["doc"]]
+        pool = OPTIONS_OF[d["fmt"]]
         for i in range(case["lo"], case["hi"]):
             text = d["text"][:i]
             ctx.nontrivial((d["fmt"], text))
             outs = read_all_routes(ctx, d, text, pick_routes(d["fmt"], i, ctx.tier), klass="prefix")
             ctx.ev("prefix-read")
+            if d.get("variant"):
+                ctx.ev("prefix-read:newline-variant")
+            if i % 4 == 0:
+                # the end of the stream is where reader options branch: one option per 4th cut, the whole set per document
+                opt = pool[(i // 4 + case["doc"]) % len(pool)]
+                d2 = with_options(d, [opt])
+                read_and_judge(ctx, d["fmt"], route_for_option(d["fmt"], opt, i // 4), text, d2["kw"], d2["dtype"], klass="prefix-option")
+                ctx.ev("prefix-option-read")
         if case["lo"] == 48 and case["doc"] % 6 == 0:
             ctx.sample({"kind": "prefix", "doc": d["id"], "cut": i, "outcomes": outs})
         return
@@ -561,17 +1049,25 @@ def run_case(case, ctx):
                 if rng.random() < 0.4:
                     text, w2 = U.edit(text, d["fmt"], rng)
                     what += " + " + w2
-                if d["fmt"] in KWVAR and rng.random() < 0.25:
-                    d = dict(d, kw=rng.choice(KWVAR[d["fmt"]]))
             else:
                 fmt = rng.choice(["nexus", "nexus", "nexus", "newick", "newick", "phylip", "fasta"])
                 kw = {}
                 if fmt == "phylip":
                     kw = {"strict": rng.random() < 0.5, "interleaved": rng.random() < 0.5}
-                elif fmt in KWVAR and rng.random() < 0.25:
-                    kw = rng.choice(KWVAR[fmt])
-                d = {"fmt": fmt, "kw": kw, "dtype": rng.choice(["dna", "dna", "standard"]) if fmt == "nexus" else "dna"}
+                dtype = "dna"
+                if fmt == "nexus":
+                    dtype = rng.choice(["dna", "dna", "standard"])
+                elif fmt in ("phylip", "fasta"):
+                    dtype = rng.choice(DTYPES)
+                d = {"fmt": fmt, "kw": kw, "dtype": dtype}
                 text, what = U.random_tokens(fmt, rng), "random tokens"
+            if rng.random() < 0.34:
+                opts = draw_options(d["fmt"], rng)
+                d = with_options(d, opts)
+                what += " / options " + "+".join(o[0] for o in opts)
+                ctx.ev("option-read")
+                if any(k in d["kw"] for k in ("tree_offset", "collection_offset", "matrix_offset")):
+                    ctx.ev("offset-option-read")
             if len(text) > 2048:
                 text = text[:2048]
             ctx.nontrivial((d["fmt"], text))
